@@ -2,11 +2,21 @@
 """Regenerates /verif/MANIFEST.json from the table below (developer tool)."""
 import json, re, subprocess
 
+T = "go/types + go/cfg (+ go/ssa for C19) of x/tools v0.29.0; the reference tables/grammars written in the checker from the Redis sources; library semantics named in the evidence's trusted_base"
 CLAIMED = {
  # id: (technique, level text, level_note, design_ref)
+ "C01": ("wire-grammar extraction from the typed AST compared with a reference RDB grammar; constant tables; typed AST patterns; go/cfg dominance (tee capture, checksum-before-trailer)",
+         "Structural necessary conditions of 'the parser yields every key exactly': opcode/type tables, per-opcode and per-type read grammar, payload capture completeness, metadata binding, hash chunk protocol, checksum plumbing, DUMP wrapping order, fixed-width read agreement. Value-level arithmetic (length bits, LZF, integer rendering) is not decided.", T, "DESIGN.md §2 C01"),
+ "C02": ("go/cfg path queries (must-pass-through pexpire, key-exists policy arms, route guards, index guards), wire-grammar extraction of the element expansion, typed AST patterns for command/argument mapping and batch/flush pairing",
+         "Structural necessary conditions of 'restore leaves the target key equal to the source key' on every path of RestoreRdbEntry/restoreBigRdbEntry/restoreQuicklistEntry/CompareVersion; equality of logical values is not decided. One genuine defect is recorded as a known finding.", T, "DESIGN.md §2 C02"),
  "C09": ("go/cfg path queries + lockset dataflow + typed AST patterns (lock guard table, wake-on-progress/close must-pass-through, wait-shape dominance, mem/file sibling skeleton, ring-index clamp form)",
-         "Structural necessary conditions of the pipe's FIFO/close/wake-up behaviour are checked on every control-flow path of pkg/libs/io/pipe; not a proof of deadlock freedom or byte equality.",
-         "go/types + go/cfg of x/tools v0.29.0; sync.Mutex/sync.Cond, copy, os.File.ReadAt/WriteAt semantics", "DESIGN.md §2 C09"),
+         "Structural necessary conditions of the pipe's FIFO/close/wake-up behaviour are checked on every control-flow path of pkg/libs/io/pipe; not a proof of deadlock freedom or byte equality.", T, "DESIGN.md §2 C09"),
+ "C12": ("wire-grammar extraction of writer and reader sides compared with one reference grammar; constant tables across the three copies; typed AST patterns for event wiring and field copies",
+         "Writer/reader agreement: same type ids, same grammar per value type and per file-level opcode, each element wired to the right slot, converters copy every field. Float/int-string/LZF value semantics are not decided.", T, "DESIGN.md §2 C12"),
+ "C18": ("go/cfg path queries + lockset dataflow + typed AST patterns (guard table, broadcast-on-progress/close, validity-before-data, range table, sibling skeleton, clamp form)",
+         "Structural necessary conditions of the backlog ring on every path of pkg/libs/io/backlog; byte equality across wrap-arounds is not decided.", T, "DESIGN.md §2 C18"),
+ "C19": ("type reachability of password fields + interprocedural SSA value taint (go/ssa) from password sources to log/print/REST/json sinks; sanitizer totality; AST rule for the ill-typed package main",
+         "Secret-flow analysis over the whole module: no value whose type contains or whose data derives from a configured password reaches a log, stdout/stderr, REST or json sink unsanitised. Third-party libraries' own logging is not decided.", T, "DESIGN.md §2 C19"),
 }
 PENDING_REASON = "rule set not implemented yet in this revision of the checker; see DESIGN.md for the planned structural clauses"
 
@@ -33,7 +43,7 @@ def main():
         "version": 1,
         "setup_cmd": "cd /verif/checker && GOFLAGS=-mod=mod GOPROXY=off GOSUMDB=off GOTOOLCHAIN=local GOWORK=off go build -o /verif/bin/rscheck ./cmd/rscheck",
         "hooks": {"guard": "verif", "enable": "none: static analysis reads /repo/src as it is, no hooks or instrumentation exist",
-                  "baseline_off_cmd": "cd /repo/src && GOFLAGS=-mod=mod go test -vet=off -count=1 ./pkg/...",
+                  "baseline_off_cmd": "cd /repo/src && go test -mod=mod -json -vet=off -count=1 -timeout 25m ./...",
                   "source_commits": [], "add_only": True},
         "engines": [{"name": "rscheck", "path": "/verif/checker", "serves_properties": sorted(CLAIMED),
                      "kind_free_text": "repository-specific static analyser (go/packages + go/types + go/cfg + go/ssa): per-property rule files over shared engines (path queries, locksets, typed AST patterns, constant tables, taint)"}],
